@@ -82,6 +82,8 @@ def rewrite_or_assign(body, log, where):
 R4_PATTERNS = [
     r'let\s+before\s*=\s*Instant::now\(\)\s*;',
     r'unsafe\s*\{\s*[A-Z_]+\s*\+=\s*before\.elapsed\(\)\s*;\s*\}',
+    # process-wide statistics counters (`static mut` in ALL CAPS, only ever incremented): `unsafe { DEPTH_COUNT += 1; DEPTH_SUM += depth; }`
+    r'unsafe\s*\{\s*(?:[A-Z][A-Z_0-9]*\s*\+=\s*[^;{}]+;\s*)+\}',
 ]
 
 
